@@ -20,3 +20,5 @@ def run(ctx, rep):
     more4.rule_int_work_fill(mod, rep)
     from ..rules import more5
     more5.rule_info_init(ctx.mod, rep)
+    from ..rules import more6
+    more6.rule_options_init(mod, rep)
